@@ -57,7 +57,7 @@ func (e *Engine) Run(fn *ssa.Function, setup Setup) []Result {
 	var decisions []bool
 	for n := 0; n < e.MaxPaths; n++ {
 		p := &Path{E: e, decisions: append([]bool(nil), decisions...), Bind: map[string]map[int]bool{}, Assumed: map[string]bool{},
-			Atoms: map[string]*AtomInfo{}, Sinks: map[string]*Obj{}}
+			Atoms: map[string]*AtomInfo{}, Sinks: map[string]*Obj{}, Keep: map[string]Value{}}
 		args := setup(p)
 		ret := e.call(p, fn, args, 0)
 		results = append(results, Result{Path: p, Ret: ret})
@@ -822,4 +822,24 @@ func structOfAny(t interface{}) *types.Struct {
 		return nil
 	}
 	return structOf(tt)
+}
+
+// NewZeroPtr builds a pointer to a fresh zero-valued object of the pointee type of t.
+func (e *Engine) NewZeroPtr(p *Path, t types.Type) Value {
+	pt, ok := t.Underlying().(*types.Pointer)
+	if !ok {
+		return &TopV{"not a pointer"}
+	}
+	switch u := pt.Elem().Underlying().(type) {
+	case *types.Struct:
+		o := p.newObj(OStruct, "")
+		o.Type = pt.Elem()
+		return &Ptr{Obj: o, Field: -1, Index: -1}
+	case *types.Array:
+		return &Ptr{Obj: e.newArray(p, u), Field: -1, Index: -1}
+	}
+	o := p.newObj(OCell, "")
+	o.Type = pt.Elem()
+	o.Cell = e.zero(p, pt.Elem())
+	return &Ptr{Obj: o, Field: -1, Index: -1}
 }
